@@ -15,7 +15,7 @@ func init() {
 	for _, k := range []string{"a", "b", "c", "d", "e", "f", "g", "h"} {
 		binds = append(binds, Bind{Seq: `\C-x\C-z` + k, Cmd: navNames[k]})
 	}
-	pool := []string{"one", "two", "one two", "three", "one", "tw", "a\nb", "é中", "o"}
+	pool := []string{"one", "two", "one two", "three", "one", "tw", "a\nb", "é中", "o", "cat a.c", "make abc", "ls *.go", "echo HOME$", "x (y"}
 	register(&prop{id: "C09", shrinkable: true,
 		build: func(c *Case) {
 			var keys []string
@@ -41,6 +41,10 @@ func init() {
 					cmds = "gh"
 				}
 				typed = []string{"o", "one", "t", "tw", "zz", "ne"}[r.Intn(6)] // ASCII: typing non-ASCII is C02's business
+				if cmds == "gh" && r.Intn(2) == 0 {
+					// the search text is text, not a pattern: characters that mean something in a regular expression
+					typed = []string{"a.c", "*.go", "E$", ".", "(y", "ab"}[r.Intn(6)]
+				}
 			}
 			var nav []string
 			for k := 1 + r.Intn(10); k > 0; k-- {
@@ -132,6 +136,22 @@ func init() {
 					}
 				}
 				stat("decided: search step")
+				// the first search backward from the input line finds an entry when one matches
+				if k == 0 && (cmd == "e" || cmd == "g") && got == typed {
+					// (the most recent matching entry; when it is the typed text itself the buffer does not change)
+					for j := len(entries) - 1; j >= 0; j-- {
+						e := entries[j]
+						if (c.Meta["kind"] == "ef" && strings.HasPrefix(e, typed)) || (c.Meta["kind"] == "gh" && strings.Contains(e, typed)) {
+							if e != typed {
+								fs = append(fs, Finding{"C09", "search-misses-match/" + navNames[cmd], fmt.Sprintf("history %q, typed %q, after %q: buffer still %q although %q matches", entries, typed, unhex(nav[:k+1]), got, e), c})
+							}
+							break
+						}
+					}
+					if len(fs) > 0 {
+						break
+					}
+				}
 				if !ok {
 					fs = append(fs, Finding{"C09", "search-shows-non-match/" + navNames[cmd], fmt.Sprintf("history %q, typed %q, after %q: buffer %q", entries, typed, unhex(nav[:k+1]), got), c})
 					break
